@@ -114,8 +114,8 @@ func runC06(c *Ctx) {
 				if !ok || !a.Val {
 					continue
 				}
-				if be.Op == token.GEQ && selName(be.Y) == "curBatchSize" {
-					if id, isID := ast.Unparen(be.X).(*ast.Ident); isID {
+				if x, _, op, ok := core.Orient(be, func(e ast.Expr) bool { return selName(e) != "curBatchSize" }); ok && op == token.GEQ && selName(be.X)+selName(be.Y) == "curBatchSize" {
+					if id, isID := ast.Unparen(x).(*ast.Ident); isID {
 						countObj = info.Uses[id]
 						okCount = true
 					}
@@ -632,7 +632,12 @@ func ruleRemovalDomain(c *Ctx, rule string, only map[string]bool) int {
 					if lit, isLit := call.Args[1].(*ast.FuncLit); isLit {
 						ast.Inspect(lit.Body, func(z ast.Node) bool {
 							if be, isB := z.(*ast.BinaryExpr); isB && be.Op == token.EQL {
-								removed = append(removed, core.ExprString(be.Y))
+								// the operand that is not the predicate's own parameter
+								other := be.Y
+								if id, isID := ast.Unparen(be.Y).(*ast.Ident); isID && len(lit.Type.Params.List) == 1 && len(lit.Type.Params.List[0].Names) == 1 && info.Uses[id] == info.Defs[lit.Type.Params.List[0].Names[0]] {
+									other = be.X
+								}
+								removed = append(removed, core.ExprString(other))
 							}
 							return true
 						})
